@@ -654,6 +654,9 @@ func c11Explore(c *lib.Ctx, w *c11World, sc c11Scenario, bound int, k, r int, re
 	outcomes = map[string]bool{}
 	first := ""
 	e = &schedExplorer{Bound: bound, MaxExecs: 400000}
+	if c.Thorough() {
+		e.MaxExecs = 4000000
+	}
 	var counter int
 	e.Body = func() ([]func(), func(*schedExec)) {
 		th, final := sc.Build(w)
